@@ -748,7 +748,7 @@ def run_shard(shard, rec):
     if shard["part"] == "df":
         for label, fn, nargs in df_menu()[shard["method"]]:
             check_case({"part": "df", "method": shard["method"], "label": label, "rows": shard["rows"]}, rec)
-            if shard["method"] not in ("aggregate", "modify"):
+            if shard["method"] not in ("aggregate", "modify") or label == "receiver as it is":
                 check_case({"part": "df", "method": shard["method"], "label": label, "rows": shard["rows"], "grouped": True}, rec)
         rec.sample({"part": "df", "method": shard["method"], "rows": shard["rows"], "labels": [x[0] for x in df_menu()[shard["method"]]][:6]})
     elif shard["part"] == "vec":
